@@ -26,6 +26,7 @@ def run(ctx):
                 "choice decides once; the entry written is level_to_var(level); the dd variant returns the sub-cube itself on "
                 "the lo branch (zero-suppressed variable) and node(level; sub, Empty) on the hi branch.")
     nz = epick.run_zbdd(ctx, F)
+    nz += epick.run_zbdd_set(ctx, F)
     ctx.explain("E-TABLE.pick.literal: the BCDD add_literal_to_cube (a builtin of the step rules) is interpreted for sub in {x, !x, "
                 "true} and both polarities: the result denotes (v | !v) & sub for all values, is created at the given level and "
                 "keeps the complement-edge normal form. E-TABLE.pick.uniform: the choice closure of pick_cube_uniform_edge "
@@ -35,7 +36,7 @@ def run(ctx):
     ctx.floor("E-TABLE.pick.literal", "add_literal_to_cube situations", na, 6)
     nu = epick.check_uniform(ctx, F)
     ctx.floor("E-TABLE.pick.uniform", "oracle paths of the choice closure", nu, 2)
-    ctx.floor("E-TABLE.pick", "ZBDD situations of the cube-picking step", nz, 18)
+    ctx.floor("E-TABLE.pick", "ZBDD situations of the cube-picking step", nz, 60)
     ctx.explain("E-POST.mapusers: pick_cube_uniform weights its choices with model counts; the count cache's map (whose keys are "
                 "kind-specific: BCDDs fold the complement tag in) is touched only by SatCountCache and sat_count_edge::inner.")
     epost.check_count_cache_users(ctx, F)
